@@ -1,6 +1,6 @@
 (* C19 -- malformed archives fail cleanly (schema-level part; byte-level corruption is handled by
    zipfile / numpy / scipy and is exercised by the harness only). *)
-From Skv Require Import PyStr Json Node GetTree Unsafe Walk Fuel Cost CostFacts TreeWf TreeIds.
+From Skv Require Import PyStr Json Node GetTree Unsafe Walk Construct NodeInd Fuel Cost CostFacts TreeWf TreeIds TermFacts.
 From Coq Require Import Lia.
 From Gen Require Import Snapshot.
 
@@ -66,3 +66,228 @@ Theorem C19_ladder_is_what_get_tree_builds :
   end.
 Proof. vm_compute. split; reflexivity. Qed.
 Print Assumptions C19_ladder_is_what_get_tree_builds.
+
+(* ------------------------------------------------------------------------------------------------
+   The walks over the built tree (a GRAPH: a Ref is the memoised node) never return the fuel artefact
+   either, for structural reasons.  No well-formedness of the tree is needed, only that the node the
+   walk stands on belongs to the tree whose ids the Refs are resolved in.
+   height: Refs and leaves 0, a Node one more than its highest child.
+   free root path  = number of ids of root that are not on the path;
+   free2 root path = sum over the ids of root of (2 - occurrences on the path).
+   ------------------------------------------------------------------------------------------------ *)
+
+(* Node.get_unsafe_set() with its _computing_unsafe_set guard: any fuel above the lexicographic bound *)
+Theorem C19_audit_graph_terminates :
+  forall E T root fuel path n, sub n root ->
+    (free root path * S (height root) + height n + 2 <= fuel)%nat ->
+    unsafe_g E T root fuel path n <> Raise EFuel.
+Proof. exact unsafe_g_nofuel. Qed.
+Print Assumptions C19_audit_graph_terminates.
+
+(* get_unsafe_set() / is_safe() of any node of the tree, with the fixed fuel *)
+Theorem C19_audit_of_any_node_terminates :
+  forall E T root n, sub n root ->
+    (length (ids root) * S (height root) + height n + 2 <= unsafe_fuel)%nat ->
+    unsafe E T root n <> Raise EFuel.
+Proof. exact unsafe_nofuel. Qed.
+Print Assumptions C19_audit_of_any_node_terminates.
+
+(* walk_tree has no guard; the model unrolls every cycle twice: each id may be pushed twice *)
+Theorem C19_walk_graph_terminates :
+  forall E T skipped root,
+    (forall x, sub x root -> unsafe E T root x <> Raise EFuel) ->
+    forall fuel path name level last n, sub n root ->
+      (free2 root path * S (height root) + height n + 2 <= fuel)%nat ->
+      snd (walk E T skipped root fuel path name level last n) <> Some EFuel.
+Proof. exact walk_nofuel. Qed.
+Print Assumptions C19_walk_graph_terminates.
+
+(* construct(): a node on the path raises RecursionError, a finished one is taken from the memo *)
+Theorem C19_construct_graph_terminates :
+  forall root fuel path d n, sub n root ->
+    (free root path * S (height root) + height n + 2 <= fuel)%nat ->
+    ctrace root fuel path d n <> Raise EFuel.
+Proof. exact ctrace_nofuel. Qed.
+Print Assumptions C19_construct_graph_terminates.
+
+(* the entry points, for every schema whose tree is small enough for the fixed fuels *)
+Theorem C19_get_untrusted_types_nofuel_partial :
+  forall E schema t m, root_tree E schema = Ok (t, m) ->
+    (length (ids t) * S (height t) + height t + 2 <= unsafe_fuel)%nat ->
+    get_untrusted_types E schema <> Raise EFuel.
+Proof. exact get_untrusted_types_nofuel. Qed.
+Print Assumptions C19_get_untrusted_types_nofuel_partial.
+
+Theorem C19_load_audit_nofuel_partial :
+  forall E schema ta t m, root_tree E schema = Ok (t, m) ->
+    (length (ids t) * S (height t) + height t + 2 <= unsafe_fuel)%nat ->
+    load_audit E schema ta <> Raise EFuel.
+Proof. exact load_audit_nofuel. Qed.
+Print Assumptions C19_load_audit_nofuel_partial.
+
+Theorem C19_visualize_stream_nofuel_partial :
+  forall E skipped schema T t m, root_tree E schema = Ok (t, m) ->
+    (length (ids t) * S (height t) + height t + 2 <= unsafe_fuel)%nat ->
+    (2 * length (ids t) * S (height t) + height t + 2 <= walk_fuel)%nat ->
+    exists st, visualize_stream E skipped schema T = Ok st /\ snd st <> Some EFuel.
+Proof. exact visualize_stream_nofuel. Qed.
+Print Assumptions C19_visualize_stream_nofuel_partial.
+
+Theorem C19_visualize_rows_nofuel_partial :
+  forall E skipped schema T t m, root_tree E schema = Ok (t, m) ->
+    (length (ids t) * S (height t) + height t + 2 <= unsafe_fuel)%nat ->
+    (2 * length (ids t) * S (height t) + height t + 2 <= walk_fuel)%nat ->
+    visualize_rows E skipped schema T <> Raise EFuel.
+Proof. exact visualize_rows_nofuel. Qed.
+Print Assumptions C19_visualize_rows_nofuel_partial.
+
+Theorem C19_visualize_nofuel_partial :
+  forall E skipped schema T sh t m, root_tree E schema = Ok (t, m) ->
+    (length (ids t) * S (height t) + height t + 2 <= unsafe_fuel)%nat ->
+    (2 * length (ids t) * S (height t) + height t + 2 <= walk_fuel)%nat ->
+    visualize E skipped schema T sh <> Raise EFuel.
+Proof. exact visualize_nofuel. Qed.
+Print Assumptions C19_visualize_nofuel_partial.
+
+Theorem C19_construct_trace_nofuel_partial :
+  forall t, (length (ids t) * S (height t) + height t + 2 <= 3000)%nat -> construct_trace t <> Raise EFuel.
+Proof. exact construct_trace_nofuel. Qed.
+Print Assumptions C19_construct_trace_nofuel_partial.
+
+(* the rounder sufficient conditions *)
+Theorem C19_fits_of_product :
+  forall t, ((S (length (ids t)) * (height t + 2) <= unsafe_fuel)%nat ->
+             (length (ids t) * S (height t) + height t + 2 <= unsafe_fuel)%nat)
+         /\ ((S (2 * length (ids t)) * (height t + 2) <= walk_fuel)%nat ->
+             (2 * length (ids t) * S (height t) + height t + 2 <= walk_fuel)%nat).
+Proof. intros t. split; [exact (audit_fits_of_product t) | exact (walk_fits_of_product t)]. Qed.
+Print Assumptions C19_fits_of_product.
+
+(* together with C19_root_never_out_of_fuel: on ANY schema nested less deeply than get_tree's fuel, whose tree --
+   if one is built at all -- fits, the model's verdict is a genuine outcome *)
+Theorem C19_get_untrusted_types_genuine_partial :
+  forall E schema, (jdepth schema < default_fuel)%nat ->
+    (forall t m, root_tree E schema = Ok (t, m) -> (length (ids t) * S (height t) + height t + 2 <= unsafe_fuel)%nat) ->
+    get_untrusted_types E schema <> Raise EFuel.
+Proof. exact get_untrusted_types_genuine. Qed.
+Print Assumptions C19_get_untrusted_types_genuine_partial.
+
+Theorem C19_load_audit_genuine_partial :
+  forall E schema ta, (jdepth schema < default_fuel)%nat ->
+    (forall t m, root_tree E schema = Ok (t, m) -> (length (ids t) * S (height t) + height t + 2 <= unsafe_fuel)%nat) ->
+    load_audit E schema ta <> Raise EFuel.
+Proof. exact load_audit_genuine. Qed.
+Print Assumptions C19_load_audit_genuine_partial.
+
+Theorem C19_visualize_genuine_partial :
+  forall E skipped schema T sh, (jdepth schema < default_fuel)%nat ->
+    (forall t m, root_tree E schema = Ok (t, m) ->
+       (length (ids t) * S (height t) + height t + 2 <= unsafe_fuel)%nat
+       /\ (2 * length (ids t) * S (height t) + height t + 2 <= walk_fuel)%nat) ->
+    visualize E skipped schema T sh <> Raise EFuel.
+Proof. exact visualize_genuine. Qed.
+Print Assumptions C19_visualize_genuine_partial.
+
+(* ... and the size of the tree is bounded by the schema: its height by the nesting depth, its number of memoised
+   ids by the number of truthy hashable "__id__" values (jids lists their hashes, with repetitions) *)
+Theorem C19_built_tree_bounded_by_schema :
+  forall E schema t m, root_tree E schema = Ok (t, m) ->
+    (height t <= jdepth schema)%nat /\ (length (ids t) <= length (jids schema))%nat.
+Proof. intros E schema t m H. split; [eapply root_tree_height | eapply root_tree_ids_count]; eauto. Qed.
+Print Assumptions C19_built_tree_bounded_by_schema.
+
+(* hence two arithmetic conditions on the schema alone make every verdict of the model genuine, whatever else is
+   wrong with the schema *)
+Theorem C19_get_untrusted_types_schema_partial :
+  forall E schema, (jdepth schema < default_fuel)%nat ->
+    (length (jids schema) * S (jdepth schema) + jdepth schema + 2 <= unsafe_fuel)%nat ->
+    get_untrusted_types E schema <> Raise EFuel.
+Proof. exact get_untrusted_types_schema. Qed.
+Print Assumptions C19_get_untrusted_types_schema_partial.
+
+Theorem C19_load_audit_schema_partial :
+  forall E schema ta, (jdepth schema < default_fuel)%nat ->
+    (length (jids schema) * S (jdepth schema) + jdepth schema + 2 <= unsafe_fuel)%nat ->
+    load_audit E schema ta <> Raise EFuel.
+Proof. exact load_audit_schema. Qed.
+Print Assumptions C19_load_audit_schema_partial.
+
+Theorem C19_visualize_schema_partial :
+  forall E skipped schema T sh, (jdepth schema < default_fuel)%nat ->
+    (length (jids schema) * S (jdepth schema) + jdepth schema + 2 <= unsafe_fuel)%nat ->
+    (2 * length (jids schema) * S (jdepth schema) + jdepth schema + 2 <= walk_fuel)%nat ->
+    visualize E skipped schema T sh <> Raise EFuel.
+Proof. exact visualize_schema. Qed.
+Print Assumptions C19_visualize_schema_partial.
+
+Theorem C19_construct_trace_schema_partial :
+  forall E schema t m, root_tree E schema = Ok (t, m) ->
+    (length (jids schema) * S (jdepth schema) + jdepth schema + 2 <= 3000)%nat ->
+    construct_trace t <> Raise EFuel.
+Proof. exact construct_trace_schema. Qed.
+Print Assumptions C19_construct_trace_schema_partial.
+
+(* The hypotheses hold of a non-trivial graph: the tree get_tree builds (registry of /repo) from
+   root = [a, a, root] with a = [a, []] -- id 4 (a) is shared and cyclic, id 2 (the root) is cyclic *)
+Example C19_knot_fits :
+  exists t m, root_tree envS (knot_json Snapshot.current) = Ok (t, m)
+    /\ ids t = [HNum 2; HNum 4] /\ refs t = [HNum 4; HNum 4; HNum 2] /\ height t = 3%nat
+    /\ (length (ids t) * S (height t) + height t + 2 <= unsafe_fuel)%nat
+    /\ (2 * length (ids t) * S (height t) + height t + 2 <= walk_fuel)%nat
+    /\ (length (ids t) * S (height t) + height t + 2 <= 3000)%nat
+    /\ (jdepth (knot_json Snapshot.current) < default_fuel)%nat
+    (* ... and the verdicts are the genuine ones: the audit passes, walk_tree and construct end in RecursionError *)
+    /\ get_untrusted_types envS (knot_json Snapshot.current) = Ok []
+    /\ visualize envS Snapshot.skipped (knot_json Snapshot.current) None ShowAll = Raise ERecursion
+    /\ construct_trace t = Raise ERecursion.
+Proof.
+  eexists. eexists. split; [vm_compute; reflexivity|].
+  repeat split; try (vm_compute; reflexivity); try (apply Nat.leb_le; vm_compute; reflexivity); apply Nat.ltb_lt; vm_compute; reflexivity.
+Qed.
+
+Example C19_knot_schema_fits :
+  jids (knot_json Snapshot.current) = [HNum 2; HNum 4; HNum 4; HNum 4; HNum 2]
+  /\ jdepth (knot_json Snapshot.current) = 6%nat
+  /\ (length (jids (knot_json Snapshot.current)) * S (jdepth (knot_json Snapshot.current)) + jdepth (knot_json Snapshot.current) + 2 <= unsafe_fuel)%nat
+  /\ (2 * length (jids (knot_json Snapshot.current)) * S (jdepth (knot_json Snapshot.current)) + jdepth (knot_json Snapshot.current) + 2 <= walk_fuel)%nat.
+Proof.
+  split; [vm_compute; reflexivity|]. split; [vm_compute; reflexivity|].
+  split; apply Nat.leb_le; vm_compute; reflexivity.
+Qed.
+
+(* an instance of the general statements in the middle of a walk: standing on the child a with the root on the path *)
+Example C19_knot_inside :
+  exists t m n, root_tree envS (knot_json Snapshot.current) = Ok (t, m)
+    /\ sub n t /\ height n = 2%nat /\ ids n = [HNum 4]
+    /\ (free t [HNum 2] * S (height t) + height n + 2 <= 8)%nat
+    /\ (free2 t [HNum 2; HNum 2; HNum 4] * S (height t) + height n + 2 <= 8)%nat.
+Proof.
+  eexists. eexists. eexists. split; [vm_compute; reflexivity|].
+  split; [eapply sub_step; [left; reflexivity | apply sub_refl]|].
+  repeat split; try (vm_compute; reflexivity); apply Nat.leb_le; vm_compute; reflexivity.
+Qed.
+
+(* WITHOUT the size condition the statement is FALSE of the model: a schema nested 386 < 400 deep (16 blocks of
+   190 nested lists side by side, each ending in a reference to the block written before it; 17 ids, height 193,
+   bound 17 * 194 + 195 = 3493 > 3000) drives the audit about 16 * 192 levels deep -- the model answers with its
+   fuel artefact.  (The implementation raises RecursionError on this archive, an ordinary exception: the artefact
+   is the model's.)  The walk-only variant -- audit fuel sufficient, walk_fuel = 2000 not: 11 blocks,
+   visualize_stream ends in Some EFuel after 12505 rows -- takes minutes of vm_compute and is not replayed here. *)
+Theorem C19_entry_points_nofuel_refuted :
+  exists schema, (jdepth schema < default_fuel)%nat
+    /\ match root_tree envS schema with
+       | Ok (t, _) => length (ids t) = 17%nat /\ height t = 193%nat
+       | Raise _ => False
+       end
+    /\ get_untrusted_types envS schema = Raise EFuel
+    /\ load_audit envS schema (TList None) = Raise EFuel
+    /\ visualize envS Snapshot.skipped schema None ShowAll = Raise EFuel.
+Proof.
+  exists (tower_json Snapshot.current 190 16).
+  split; [apply Nat.ltb_lt; vm_compute; reflexivity|].
+  split; [vm_compute; split; reflexivity|].
+  split; [vm_compute; reflexivity|]. split; vm_compute; reflexivity.
+Qed.
+Print Assumptions C19_entry_points_nofuel_refuted.
+(* (with one block less, `tower_json _ 190 15`, the model answers Ok []: the sufficient bound 16 * 194 + 195 = 3299 is
+   within a factor 1 + 1/k of what the audit really needs) *)
